@@ -5,8 +5,9 @@ layouts: empty primary, image HDUs, a binary table, alternate WCS keys) x every 
 (none / one / per-file list) x every in-scope wcs_key (none / one / per-file list), explores the two
 generators descriptions() / images() under every interleaving and checks the property's sentences as
 invariants (ScalarAppliesToAll, ListIsPositional, NoneIsFirstImage, ExactSelection, InInputOrder,
-DescriptionsMatchImages, CliFaithful, ListIsLocal) plus the theorems GuessIsFirstImage (the for/break loop
-finds the first image HDU, for every layout of up to 4 HDUs) and EncodingInjective/EncodingKeys (the
+DescriptionsMatchImages, CliFaithful, ListIsLocal, KeyListIsLocal, CaseInScope) plus the theorems GuessIsFirstImage (the for/break loop
+finds the first image HDU, for every layout of up to 4 HDUs), CaseSpaceComplete (the generated cases are exactly the
+in-scope selections, collections of up to 2 files) and EncodingInjective/EncodingKeys (the
 observation encoding tells every (file, HDU, key) apart).  TLC also emits (a) the table of FITS files to
 write - shape, constant pixel value and CRPIX encode (file position, HDU), CRVAL encodes the WCS key - and
 (b) for every case the expected (hdu, shape, value, key, crval, crpix) per input path and the tokens of the
@@ -54,6 +55,7 @@ INVARIANT InInputOrder
 INVARIANT DescriptionsMatchImages
 INVARIANT CliFaithful
 INVARIANT ListIsLocal
+INVARIANT KeyListIsLocal
 INVARIANT Emit
 CHECK_DEADLOCK FALSE
 """
@@ -71,7 +73,7 @@ def mc_module(layouts_text, hforms=ALL_FORMS, kforms=ALL_FORMS, theorems=True):
         'exp |-> [n \\in 1..N |-> Observed(dout[n])]])>>)',
     ]
     if theorems:
-        defs.insert(3, "ASSUME GuessIsFirstImage(4)")
+        defs.insert(3, "ASSUME GuessIsFirstImage(4) /\\ CaseSpaceComplete(2)")
     return tla.module("MCCollection", ["Collection", "Json", "IOUtils", "SequencesExt"], defs)
 
 
